@@ -47,7 +47,7 @@ def concrete(letter):
 class Spec:
     def __init__(self, name, exe="exe0", N=2, retries=0, warmup=0, ign=False, exe_build=None, suite_build=None,
                  suite=None, suite_loc="/x", adapter_ok=True, script=(), mode="k", exclusive=None, exe_path="/x",
-                 exe_file=None):
+                 exe_file=None, exe_env=None, suite_env=None, bench_env=None):
         self.name, self.exe, self.N, self.retries, self.warmup, self.ign = name, exe, N, retries, warmup, ign
         self.exe_build, self.suite_build = exe_build, suite_build
         self.suite = suite or "S_" + name
@@ -57,6 +57,14 @@ class Spec:
         self.mode = mode
         self.exclusive = exclusive
         self.exe_path, self.exe_file = exe_path, exe_file or exe   # executors are told apart by path + file name
+        self.exe_env, self.suite_env, self.bench_env = exe_env, suite_env, bench_env
+
+    def run_env(self):
+        """the run's env: the most specific level that defines one replaces the others"""
+        for e in (self.bench_env, self.suite_env, self.exe_env):
+            if e is not None:
+                return e
+        return {}
 
     def letter(self, inv, k):
         i = k if self.mode == "k" else inv - 1
@@ -66,7 +74,8 @@ class Spec:
         return dict(name=self.name, exe=self.exe, N=self.N, retries=self.retries, warmup=self.warmup, ign=self.ign,
                     exe_build=self.exe_build, suite_build=self.suite_build, suite=self.suite, suite_loc=self.suite_loc,
                     adapter_ok=self.adapter_ok, script=self.script, mode=self.mode, exclusive=self.exclusive,
-                    exe_path=self.exe_path, exe_file=self.exe_file)
+                    exe_path=self.exe_path, exe_file=self.exe_file, exe_env=self.exe_env, suite_env=self.suite_env,
+                    bench_env=self.bench_env)
 
 
 def raw_config(specs):
@@ -75,14 +84,20 @@ def raw_config(specs):
         e = executors.setdefault("E_" + s.exe, {"path": s.exe_path, "executable": s.exe_file})
         if s.exe_build:
             e["build"] = [s.exe_build]
+        if s.exe_env is not None:
+            e["env"] = s.exe_env
         su = suites.setdefault(s.suite, {"gauge_adapter": "RebenchLog" if s.adapter_ok else "NoSuchAdapter",
                                          "command": "%(benchmark)s %(invocation)s", "benchmarks": [], "location": s.suite_loc})
         if s.suite_build:
             su["build"] = [s.suite_build]
+        if s.suite_env is not None:
+            su["env"] = s.suite_env
         det = {"invocations": s.N, "retries_after_failure": s.retries, "warmup": s.warmup, "ignore_timeouts": s.ign,
                "max_invocation_time": 5}
         if s.exclusive is not None:
             det["execute_exclusively"] = s.exclusive
+        if s.bench_env is not None:
+            det["env"] = s.bench_env
         su["benchmarks"].append({s.name: det})
     by_exe = {}
     for s in specs:
